@@ -3,6 +3,7 @@ package main
 import (
 	"fmt"
 	"math/rand"
+	"strings"
 )
 
 // Program-level feature blocks appended to generated programs: interface values (dynamic dispatch
@@ -588,4 +589,55 @@ func staleSlotProgram(r *rand.Rand, id string) *Prog {
 	}
 	p.Funcs = append(p.Funcs, &Func{Name: "Main", Body: body})
 	return p
+}
+
+// addConstGroupDemo: package-level constant groups with iota: explicit lines, implicit repetition of the previous
+// expression, iota nested inside operators and parentheses, skipped values. The meaning is the list of values.
+func (g *Gen) addConstGroupDemo() *S {
+	r := g.r
+	p := g.prog
+	tag := fmt.Sprintf("%d", len(p.Globals))
+	type form struct {
+		expr string
+		val  func(i int64) int64
+	}
+	forms := []form{
+		{"iota", func(i int64) int64 { return i }},
+		{"iota + 5", func(i int64) int64 { return i + 5 }},
+		{"1 << iota", func(i int64) int64 { return 1 << uint(i) }},
+		{"1 << (10 * iota)", func(i int64) int64 { return 1 << uint(10*i) }},
+		{"(iota + 1) * 10", func(i int64) int64 { return (i + 1) * 10 }},
+		{"100 - (iota*iota + 1)", func(i int64) int64 { return 100 - (i*i + 1) }},
+		{"(2 + iota) * (3 - iota)", func(i int64) int64 { return (2 + i) * (3 - i) }},
+	}
+	f := forms[r.Intn(len(forms))]
+	n := 3 + r.Intn(2)
+	if f.expr == "1 << (10 * iota)" {
+		n = 3
+	}
+	var names []string
+	var lines []string
+	var out []*S
+	for i := 0; i < n; i++ {
+		name := fmt.Sprintf("K%s_%d", tag, i)
+		names = append(names, name)
+		switch {
+		case i == 0:
+			lines = append(lines, "\t"+name+" = "+f.expr)
+		case i == 2 && r.Intn(2) == 0: // the expression written out again in the middle of the group
+			lines = append(lines, "\t"+name+" = "+f.expr)
+		default:
+			lines = append(lines, "\t"+name)
+		}
+		st := &S{K: "decl", Names: []string{name}, Const: true, Exprs: []*E{lit(TInt, f.val(int64(i)))}, Global: true, Raw: "-"}
+		out = append(out, st)
+	}
+	out[0].Raw = "const (\n" + strings.Join(lines, "\n") + "\n)"
+	p.Globals = append(p.Globals, out...)
+	var es []*E
+	es = append(es, sS("consts"))
+	for _, nme := range names {
+		es = append(es, &E{K: "var", Ty: TInt, Name: nme, Global: true})
+	}
+	return pr(es...)
 }
